@@ -4,35 +4,38 @@ package main
 // the shard-level checks (C01..C10). Everything derives from one PRNG.
 
 import (
-	"os"
-	"strconv"
 	"math"
 	"math/rand/v2"
+	"os"
 	"sort"
+	"strconv"
 	"strings"
 
 	"github.com/google/uuid"
 )
 
 type genState struct {
-	r       *rand.Rand
-	pcg     *rand.PCG
-	profile string
-	schema  schemaSpec
-	pool    []uuid.UUID
-	bigAt   int  // step of the oversized rejected insert request (profile c07), 0 = none
-	tagOK   bool // histories that may contain the tagged known-finding request shape (F14)
-	sent    map[uuid.UUID]Val // approximate bookkeeping of what is stored (only to pick interesting values)
-	maxSize int
-	noRej   bool // avoid batches that are rejected inside the transaction (memstore has no rollback)
-	words   []string
-	old     map[string][]Val // values stored earlier at a path
-	recent  []uuid.UUID      // ids written by the last accepted batch
-	chain   int              // >0: graph 'chain' history: points on a ray inserted one per batch, then the middle deleted
-	chainIds []uuid.UUID
-	large   bool // graph profile: 60..110 points, few batches
-	dim     int
-	vecMetric string
+	r               *rand.Rand
+	pcg             *rand.PCG
+	profile         string
+	schema          schemaSpec
+	pool            []uuid.UUID
+	forceInsertNext bool              // set after a delete batch that failed for good (profile c07)
+	plainStep       bool              // the batch just generated is executed once, without the fault sweep
+	softBits        bool              // bit-metric vectors also take fractional values
+	bigAt           int               // step of the oversized rejected insert request (profile c07), 0 = none
+	tagOK           bool              // histories that may contain the tagged known-finding request shape (F14)
+	sent            map[uuid.UUID]Val // approximate bookkeeping of what is stored (only to pick interesting values)
+	maxSize         int
+	noRej           bool // avoid batches that are rejected inside the transaction (memstore has no rollback)
+	words           []string
+	old             map[string][]Val // values stored earlier at a path
+	recent          []uuid.UUID      // ids written by the last accepted batch
+	chain           int              // >0: graph 'chain' history: points on a ray inserted one per batch, then the middle deleted
+	chainIds        []uuid.UUID
+	large           bool // graph profile: 60..110 points, few batches
+	dim             int
+	vecMetric       string
 }
 
 var intPool = []int64{0, 1, -1, 2, 3, 5, 7, 10, 42, 100, -100, 255, 256, 1000, math.MaxInt64, math.MinInt64, math.MaxInt64 - 1, math.MinInt64 + 1, 1 << 31, -(1 << 31), 1<<32 + 1}
@@ -160,6 +163,12 @@ func (g *genState) schemaC04(idx int) schemaSpec {
 			q = quantSpec{kind: 3, ncent: 2 + r.IntN(3), nsub: 2, trigger: 4 + r.IntN(8)}
 		}
 	}
+	if (m == "hamming" || m == "jaccard") && (idx/6)%2 == 1 {
+		// a bit-metric index that ALSO carries a binary quantiser block with a threshold of its own: the block is
+		// not used for these metrics (bits are taken at 0.5), whatever it says
+		q = quantSpec{kind: 1, thr: []float32{0.2, 0.75, -0.5, 1.5}[r.IntN(4)], metric: m}
+		g.softBits = true
+	}
 	g.dim = dim
 	g.vecMetric = m
 	return schemaSpec{{path: "fv", kind: ixFlat, dim: dim, metric: m, q: q}, {path: "i", kind: ixInt}, {path: "tags", kind: ixStrArr, caseSens: true}}
@@ -212,6 +221,7 @@ func (g *genState) genStr() string {
 	}
 	return g.pick(strPoolBase)
 }
+
 // textVariant rewrites a stored text: same words in another order, the same distinct words with other
 // multiplicities (same length or not), one word swapped, a word dropped or added.
 func (g *genState) textVariant(path string) (string, bool) {
@@ -345,6 +355,9 @@ func (g *genState) genVec(dim int) []float32 {
 			v[i] = float32(g.r.IntN(2))
 			if g.r.IntN(8) == 0 {
 				v[i] = float32(g.r.IntN(5) - 2)
+			}
+			if g.softBits && g.r.IntN(3) == 0 {
+				v[i] = []float32{0.25, 0.3, 0.45, 0.7, 0.75, 1.25}[g.r.IntN(6)] // between the block's threshold and 0.5
 			}
 		}
 	case "haversine":
@@ -628,6 +641,17 @@ func (g *genState) genBatch(step int) batchSpec {
 	if b, ok := g.quantScript(step); ok {
 		return b
 	}
+	if g.forceInsertNext {
+		g.forceInsertNext = false
+		g.plainStep = true
+		if dead := g.deadIds(); len(dead) > 0 {
+			b := batchSpec{kind: 0}
+			for i := 0; i < 3 && i < len(dead); i++ {
+				b.points = append(b.points, pointSpec{id: dead[i], doc: g.genDoc(false, false)})
+			}
+			return b
+		}
+	}
 	if g.bigAt > 0 && step == g.bigAt {
 		// one insert request larger than a plausible internal slice size (1100..1300 points with empty documents in
 		// the quick tier, 5000..6700 in the thorough tier)
@@ -777,11 +801,22 @@ func (g *genState) genBatch(step int) batchSpec {
 				b.ids = append(b.ids, id)
 			}
 		}
-		if r.IntN(10) == 0 && len(live) > 2 { // a whole neighbourhood at once; every other time the whole collection
+		if g.profile == "c03" && r.IntN(3) == 0 && len(live) > 3 {
+			// graph profile: everything but one or two random survivors goes in ONE batch (a survivor whose whole
+			// out-neighbourhood disappears at once)
+			r.Shuffle(len(live), func(i, j int) { live[i], live[j] = live[j], live[i] })
+			for _, id := range live[:len(live)-1-r.IntN(2)] {
+				if !seen[id] {
+					seen[id] = true
+					b.ids = append(b.ids, id)
+				}
+			}
+		} else if r.IntN(10) == 0 && len(live) > 2 { // a whole neighbourhood at once; every other time the whole collection
 			upto := len(live) - 1
 			if r.IntN(2) == 0 {
 				upto = len(live) // nothing is left: index structures with no entries (a graph entry node without edges)
 			}
+			r.Shuffle(len(live), func(i, j int) { live[i], live[j] = live[j], live[i] }) // the survivor is a random point
 			for _, id := range live[:upto] {
 				if !seen[id] {
 					seen[id] = true
